@@ -169,3 +169,79 @@ def is_sentinel(device) -> bool:
         return int(device.device_id, 16) >= SENTINEL_BASE
     except (ValueError, TypeError, AttributeError):
         return False
+
+
+class Relay:
+    """A consumer object whose bound method is the bridge's callback; the application keeps no other reference to it."""
+
+    def __init__(self, log: EventLog) -> None:
+        self.log = log
+
+    def on_device(self, device) -> None:
+        self.log.callback(device)
+
+
+async def unowned_bridge_probe(rig: "UdpRig", descs, keep_bridge: bool):
+    """Start a bridge the way a set-up helper does - the callback is a bound method of an object nobody else references and
+    (keep_bridge False) the bridge object itself goes out of scope once started - collect garbage, then send `descs`.
+    -> (delivered devices, sent datagrams).  The transports are closed afterwards."""
+    import gc
+
+    from aioswitcher.bridge import SwitcherBridge
+
+    port = rig.free_ports(1)[0]
+    log = EventLog()
+
+    async def helper():
+        bridge = SwitcherBridge(Relay(log).on_device, [port])
+        await bridge.start()
+        return (bridge if keep_bridge else None), [t for t in bridge._transports.values() if t is not None]   # transports: only to tidy up
+
+    bridge, transports = await helper()
+    gc.collect()
+    await asyncio.sleep(0)
+    gc.collect()
+    sent = []
+    try:
+        for d in descs:
+            data = rb.encode(d)
+            sent.append(data)
+            rig.send(port, data)
+        for spin in range(400):
+            if log.deliveries >= len(sent):
+                break
+            await asyncio.sleep(0 if spin < 200 else 0.002)
+        for _ in range(3):
+            await asyncio.sleep(0)
+    finally:
+        if bridge is not None:
+            await bridge.stop()
+        for t in transports:
+            t.close()
+        await asyncio.sleep(0)
+    return [p for k, p in log.events if k == "device"], sent
+
+
+def second_loop_probe(make_bridge, port: int, datagrams, log: EventLog, sender):
+    """Run in a worker thread: a brand-new event loop (asyncio.run) in which an already used bridge object is started again,
+    fed `datagrams` and stopped.  -> number of deliveries seen in that loop."""
+
+    async def main():
+        bridge = make_bridge()
+        await bridge.start()
+        try:
+            n0 = log.deliveries
+            for data in datagrams:
+                sender.sendto(data, ("127.0.0.1", port))
+            for spin in range(400):
+                if log.deliveries - n0 >= len(datagrams):
+                    break
+                await asyncio.sleep(0 if spin < 200 else 0.002)
+            for _ in range(3):
+                await asyncio.sleep(0)
+            return log.deliveries - n0
+        finally:
+            await bridge.stop()
+            await asyncio.sleep(0)
+
+    return asyncio.run(main())
